@@ -30,7 +30,7 @@ HAZARD_STATICS = {
 
 
 def _tlc_cases(tier: str, v: core.Verdict):
-    consts = {"quick": (5, 3), "thorough": (6, 4)}[tier]
+    consts = {"quick": (5, 3), "thorough": (5, 4)}[tier]
     cfg = core.scratch("c17") / "WorkflowEmit.cfg"
     txt = (SPEC / "WorkflowEmit.cfg").read_text()
     txt = txt.replace("MaxTasks = 4", f"MaxTasks = {consts[0]}").replace("MaxOps = 3", f"MaxOps = {consts[1]}")
